@@ -43,7 +43,8 @@ Section V2.
     dp : dpc;
     subscribers : list entry;
     actors : N -> actor;
-    decl : N -> option (N * C) }.   (* ghost: receiver and converter of every subscription made *)
+    decl : N -> option (N * C);   (* ghost: receiver and converter of every subscription made *)
+    closed : bool }.              (* every handle of the port has been dropped (mpsc Sender gone) *)
 
   Inductive label :=
   | LPublish (m : N)
@@ -54,9 +55,12 @@ Section V2.
   | LApply (r : option N)           (* apply_subscriber; r = the subscription it replaces *)
   | LHandle (a s : N)
   | LStop (a : N)
-  | LStart (a : N).                 (* Starting -> Running *)
+  | LStart (a : N)                  (* Starting -> Running *)
+  | LClose.                         (* the port (every handle) is dropped; the port task keeps
+                                       receiving what is queued (recv_many returns 0 only when
+                                       the queue is empty and all senders are gone) *)
 
-  Definition init : state := mkSt [] [] DIdle [] (fun _ => actor0) (fun _ => None).
+  Definition init : state := mkSt [] [] DIdle [] (fun _ => actor0) (fun _ => None) false.
 
   Definition is_set (c : cmd) : bool := match c with SetSub _ _ _ => true | Data _ => false end.
 
@@ -68,7 +72,7 @@ Section V2.
     end.
 
   Definition set_dp (st : state) (d : dpc) : state :=
-    mkSt (queue st) (batch st) d (subscribers st) (actors st) (decl st).
+    mkSt (queue st) (batch st) d (subscribers st) (actors st) (decl st) (closed st).
 
   Fixpoint remove_nth {A} (n : nat) (l : list A) : list A :=
     match l, n with
@@ -105,19 +109,21 @@ Section V2.
   Definition step (st : state) (l : label) : option state :=
     match l with
     | LPublish m =>
-        Some (mkSt (queue st ++ [Data m]) (batch st) (dp st) (subscribers st) (actors st) (decl st))
+        if closed st then None else
+        Some (mkSt (queue st ++ [Data m]) (batch st) (dp st) (subscribers st) (actors st) (decl st) (closed st))
     | LSubscribe s a c =>
+        if closed st then None else
         match decl st s with
         | Some _ => None
         | None => Some (mkSt (queue st ++ [SetSub s a c]) (batch st) (dp st) (subscribers st)
-                             (actors st) (updf (decl st) s (Some (a, c))))
+                             (actors st) (updf (decl st) s (Some (a, c))) (closed st))
         end
     | LTake n =>
         match dp st with
         | DIdle =>
             if (Nat.leb 1 n && Nat.leb n max_batch && Nat.leb n (length (queue st)))%bool
             then Some (mkSt (skipn n (queue st)) (firstn n (queue st)) (DSeg 0)
-                            (subscribers st) (actors st) (decl st))
+                            (subscribers st) (actors st) (decl st) (closed st))
             else None
         | _ => None
         end
@@ -129,7 +135,7 @@ Section V2.
               let b := seg_end (skipn a (batch st)) a in
               if Nat.ltb a b then Some (set_dp st (DSub a b 0)) else Some (set_dp st (DApply b))
             else (* batch.clear() *)
-              Some (mkSt (queue st) [] DIdle (subscribers st) (actors st) (decl st))
+              Some (mkSt (queue st) [] DIdle (subscribers st) (actors st) (decl st) (closed st))
         | DSub a b si =>
             if Nat.ltb si (length (subscribers st))
             then Some (set_dp st (DMsg a b si a))
@@ -139,7 +145,7 @@ Section V2.
             else Some (set_dp st (DSub a b (S si)))   (* retain_subscriber: subscriber_index += 1 *)
         | DApply b =>
             if Nat.eqb b (length (batch st))
-            then Some (mkSt (queue st) [] DIdle (subscribers st) (actors st) (decl st))
+            then Some (mkSt (queue st) [] DIdle (subscribers st) (actors st) (decl st) (closed st))
             else None                                 (* a SetSubscriber is due: label LApply *)
         end
     | LSend s =>
@@ -157,10 +163,10 @@ Section V2.
                           Some (mkSt (queue st) (batch st) (DMsg a b si (S mi)) (subscribers st)
                                      (updf (actors st) (e_actor e)
                                            (mkActor true (a_started x) (a_mbox x ++ [(s, r)]) (a_got x)))
-                                     (decl st))
+                                     (decl st) (closed st))
                         else (* !sent: subscribers.remove(subscriber_index) *)
                           Some (mkSt (queue st) (batch st) (DSub a b si)
-                                     (remove_nth si (subscribers st)) (actors st) (decl st))
+                                     (remove_nth si (subscribers st)) (actors st) (decl st) (closed st))
                     end
                   else None
               | _, _ => None
@@ -175,7 +181,7 @@ Section V2.
             | Some (SetSub s a c) =>
                 let '(l', r') := apply_subscriber (subscribers st) (mkEntry s a c) in
                 if oeqb r r'
-                then Some (mkSt (queue st) (batch st) (DSeg (S b)) l' (actors st) (decl st))
+                then Some (mkSt (queue st) (batch st) (DSeg (S b)) l' (actors st) (decl st) (closed st))
                 else None
             | _ => None
             end
@@ -188,7 +194,7 @@ Section V2.
           | (s', r) :: q =>
               if N.eqb s' s
               then Some (mkSt (queue st) (batch st) (dp st) (subscribers st)
-                              (updf (actors st) a (mkActor true true q (a_got x ++ [(s', r)]))) (decl st))
+                              (updf (actors st) a (mkActor true true q (a_got x ++ [(s', r)]))) (decl st) (closed st))
               else None
           | [] => None
           end
@@ -197,14 +203,17 @@ Section V2.
         let x := actors st a in
         if a_alive x
         then Some (mkSt (queue st) (batch st) (dp st) (subscribers st)
-                        (updf (actors st) a (mkActor false (a_started x) [] (a_got x))) (decl st))
+                        (updf (actors st) a (mkActor false (a_started x) [] (a_got x))) (decl st) (closed st))
         else None
     | LStart a =>
         let x := actors st a in
         if a_alive x && negb (a_started x)
         then Some (mkSt (queue st) (batch st) (dp st) (subscribers st)
-                        (updf (actors st) a (mkActor true true (a_mbox x) (a_got x))) (decl st))
+                        (updf (actors st) a (mkActor true true (a_mbox x) (a_got x))) (decl st) (closed st))
         else None
+    | LClose =>
+        if closed st then None
+        else Some (mkSt (queue st) (batch st) (dp st) (subscribers st) (actors st) (decl st) true)
     end.
 
   Fixpoint run (st : state) (ls : list label) : option state :=
@@ -246,6 +255,7 @@ Section V2.
     | LHandle _ s' => if N.eqb s' s then [AHandle] else []
     | LStop a' => if N.eqb a' a then [AStop] else []
     | LStart _ => []
+    | LClose => []
     end.
   Definition projs (s a : N) (ls : list label) : list alabel := flat_map (proj s a) ls.
 
@@ -324,5 +334,6 @@ Arguments LApply {C}.
 Arguments LHandle {C}.
 Arguments LStop {C}.
 Arguments LStart {C}.
+Arguments LClose {C}.
 Arguments Data {C}.
 Arguments SetSub {C}.
